@@ -50,9 +50,11 @@ def handleLogin13 (l : Line) : List Verdict :=
         | none => cmp "logout redirects to provider" (status == 302 && locbase == endsession) false
       pure (verdictsOf diffs (viol ++ (if leak != "" then [("C13.front_channel_leak." ++ leak, "client credential visible to the browser")] else [])))
     else
-    let model := authRequest cfg ings host xfh path level locale prompt ⟨p_state, p_nonce, "V"⟩
+    let parfault ← l.bool? "parfault"
+    -- a refused pushed authorization request fails the login attempt: no redirect to the provider (the PAR endpoint was of course called)
+    let model := if parfault then none else authRequest cfg ings host xfh path level locale prompt ⟨p_state, p_nonce, "V"⟩
     let diffs := match model with
-      | none => cmp "redirected to provider" (status == 302 && locbase == authz) false ++ cmp "login cookie set" hascookie false ++ cmp "PAR called" parcalled false
+      | none => cmp "redirected to provider" (status == 302 && locbase == authz) false ++ cmp "login cookie set" hascookie false ++ (if parfault then [] else cmp "PAR called" parcalled false)
       | some a =>
         let pm := fun k => (a.params.find? (·.1 == k)).map (·.2) |>.getD ""
         cmp "redirected to provider" (status == 302 && locbase == authz) true ++ cmp "redirect_uri" p_redirect (pm "redirect_uri") ++ cmp "acr_values" p_acr (pm "acr_values") ++
@@ -78,6 +80,7 @@ def handleLogin13 (l : Line) : List Verdict :=
       (if parcalled && !(if secret then par_secret && !par_assertion else par_assertion && !par_secret) then [("C13.assertion.method", "wrong client authentication in PAR body")] else []) ++
       (if !assertok then [("C13.assertion." ++ assertwhy, "client assertion")] else []) ++
       (if leak != "" then [("C13.front_channel_leak." ++ leak, "client credential visible to the browser")] else []) ++
+      (if parfault && went then [("C13.front_channel_leak.par_fallback", s!"the pushed authorization request was refused, yet the browser was sent to the provider with {frontkeys}")] else []) ++
       (if !went && ing.isNone && (hascookie || parcalled) then [("C13.redirect_uri_unconfigured", "cookie set / PAR called for an unconfigured host")] else [])
     pure (verdictsOf diffs viol)
   r.getD [Verdict.bad "login13"]
@@ -90,5 +93,12 @@ def handleFresh13 (l : Line) : List Verdict :=
     pure (verdictsOf [] ((if dups > 0 then [("C13.reused", s!"{dups} repeated state/nonce/verifier/jti values among {total}")] else []) ++
                          (if total > 0 && minlen < 36 then [("C13.short", s!"shortest value has {minlen} characters")] else [])))
   r.getD [Verdict.bad "fresh13"]
+
+def handleBurst13 (l : Line) : List Verdict :=
+  let r : Option (List Verdict) := do
+    let visits ← l.nat? "visits"
+    let failed ← l.nat? "failed"
+    pure (verdictsOf (if failed > 0 then [s!"{failed} of {visits} concurrent login visits did not end in a redirect to the provider with a sealed login cookie"] else []) [])
+  r.getD [Verdict.bad "burst13"]
 
 end Ww.Driver
